@@ -127,6 +127,11 @@ CARRY = {
     "carry_regex_in_closure": ("var f = (function(){ var rx = /a+b/; return function(s){ return rx.test(s) ? 1 : 0 } })(); 1", "f('aab')"),
     "carry_function": ("function work(k){ var t=0; for (var i=0;i<k;i++) t+=i; return t } 1", "work(50)"),
     "carry_string_method_regex": ("var rx = /a+b/g; 1", "'xaabaab'.replace(rx, 'z').length"),
+    "carry_string_pattern": ("'xaab'.match('a+b') ? 1 : 0", "'xaab'.match('a+b') ? 1 : 0"),
+    # fresh_*: the later evaluation runs on a NEW context of the same process (nothing may be cached across contexts)
+    "fresh_string_pattern": ("'xaab'.search('a+b') + ('xaab'.match('a+b') ? 1 : 0)", "'xaab'.search('a+b') + ('xaab'.match('a+b') ? 1 : 0)"),
+    "fresh_regex_literal": ("/a+b/g.test('xaab') ? 1 : 0", "/a+b/g.test('xaab') ? 1 : 0"),
+    "fresh_regex_ctor": ("new RegExp('a+b').test('xaab') ? 1 : 0", "new RegExp('a+b').test('xaab') ? 1 : 0"),
 }
 
 
@@ -138,6 +143,8 @@ def driver(case, api):
         pre = api.run(lambda: ctx.eval(first), wall=40.0, cap=3_000_000, tick=1.0, deadline=T)
         api.vclock.now += 3 * T          # virtual time passes between the two evaluations
         start = api.vclock.now
+        if case["loop"].startswith("fresh_"):
+            ctx = api.new_context(time_limit=T, memory_limit=(case["m"] or None))
         out = api.run(lambda: ctx.eval(src), wall=40.0, cap=int(T) + 3_000_000, tick=1.0, deadline=start + T, keep_clock=True)
         if pre["o"] != "value":
             out = {"o": "host", "type": "PreludeFailed", "where": pre["o"], "steps": 0}
